@@ -358,6 +358,11 @@ def judge(world, body, reply, raised, shape, exps, exp_log, info, got_log):
     ctx = "body=%r server_version=%s dispatch=%s" % (body, world.version, world.dispatch)
     if raised is not None:
         v.append(("C02", "C02/dispatcher-raises-%s" % type(raised).__name__, "%s: raised %r" % (ctx, raised)))
+        if exps:
+            v.append(("C03", "C03/no-reply-at-all-for-entries-that-must-be-answered",
+                      "%s: raised %r instead of answering %r" % (ctx, raised, exps)))
+        if info["notifications"] and not same_log(got_log, exp_log):
+            v.append(("C04", "C04/notification-execution-count", "%s: raised %r; invocation log %r, expected %r" % (ctx, raised, got_log, exp_log)))
         return v
     if not isinstance(reply, str):
         v.append(("C02", "C02/reply-not-text", "%s: returned %r" % (ctx, reply)))
@@ -438,7 +443,7 @@ def same_log(a, b):
 
 
 def _log_norm(log):
-    return [list(x) for x in log]
+    return [list(x) if isinstance(x, (list, tuple)) else ["<raw entry>", x] for x in log]
 
 
 def contains_nonfinite(v):
